@@ -73,6 +73,27 @@ CLAIMED.update({
             "Bound over histories needs the two-level analysis of the re-entrant update_task_state call."),
 })
 
+CLAIMED.update({
+    "C14": ("Proved about compose (the model of WorkflowComposer._compose_wf_graph), conditional on the fuelled worklist "
+            "returning a graph: edges sound and complete w.r.t. (task, transition, target) triples, nodes exactly the reachable "
+            "tasks, no duplicate edges, parallel-edge keys dense, roots exactly the start tasks, barrier/retry attributes exactly "
+            "where declared, independence of declaration order, typed serialize/deserialize round trip incl. keys "
+            "(15 theorems). NOT proved: termination of the worklist (theorems are conditional on Val g).",
+            "Model tied to composers/native.py by comparing the Coq compose (vm_compute) with the real composer on generated "
+            "definitions, plus an independent reference construction from the definition."),
+    "C17": ("PARTIAL. Proved: a rerun is refused (state unchanged) unless the workflow is completed and every request names an "
+            "existing execution; an accepted rerun leaves status resuming, output reset, and only appends to the history. "
+            "Tested, not proved: exactly the requested tasks are re-executed; convergence to the clean outcome; never stuck "
+            "(known findings D8, D9, D21).",
+            "Twin simulation: fail, default rerun, re-executed actions succeed, compared with the clean run."),
+    "C20": ("PARTIAL. Proved about the Gallina model of parse_inline_params and the shorthand normalisations: round trip "
+            "parse(render kvs) = kvs for integers, decimals, booleans, null, quoted strings and expressions (restricted class, "
+            "refuting witnesses for the excluded shapes), do / with / action shorthands equal their long forms. The scanner "
+            "follows the ORDER of regex alternatives regenerated from /repo. Tested: model vs real parser on generated and hostile "
+            "strings; twin definitions (short vs long) compose, inspect and conduct identically.",
+            "Bracket lists and quoted JSON objects are outside the proved class and only tested."),
+})
+
 NOT_YET = {}
 
 
